@@ -124,13 +124,13 @@ func kfTimeParse(args []KeyBuilderStage) (KeyBuilderStage, error) {
 			}, nil
 		case "live":
 			return func(context KeyBuilderContext) string {
-				context.GetMatch(-1) // HACK: Touch the context so it doesn't get optimized out
+				context.GetKey("") // HACK: Touch the context so it doesn't get optimized out (a key look-up reaches the outermost context through every sub-context)
 				return strconv.FormatInt(time.Now().Unix(), 10)
 			}, nil
 		case "delta":
 			start := time.Now().Unix()
 			return func(context KeyBuilderContext) string {
-				context.GetMatch(-1) // HACK: Touch the context so it doesn't get optimized out
+				context.GetKey("") // HACK: Touch the context so it doesn't get optimized out (a key look-up reaches the outermost context through every sub-context)
 				return strconv.FormatInt(time.Now().Unix()-start, 10)
 			}, nil
 		}
